@@ -167,7 +167,7 @@ func rawBytes(e reflect.Value) []byte {
 		v := e.Index(i)
 		switch v.Kind() {
 		case reflect.Float32:
-			out = binary.LittleEndian.AppendUint32(out, math.Float32bits(float32(v.Float())))
+			out = binary.LittleEndian.AppendUint32(out, math.Float32bits(v.Interface().(float32)))
 		case reflect.Float64:
 			out = binary.LittleEndian.AppendUint64(out, math.Float64bits(v.Float()))
 		case reflect.Int8:
@@ -351,8 +351,9 @@ func runSingleNodeModel(node *onnx.NodeProto, inputs []tensor.Tensor, nOut int) 
 	return
 }
 
-// agreeLevels: the operator-level and model-level outcomes must be the same (same code path, so
-// exact). Returns a description of the disagreement or "".
+// agreeLevels: the operator-level and model-level outcomes must be the same: same code path, but
+// gonum's assembly dot-product kernels round differently depending on operand alignment, so float
+// elements are compared up to rounding (1e-5 relative); everything else exactly.
 func agreeLevels(a, b opResult) string {
 	if a.panicked != b.panicked {
 		return fmt.Sprintf("operator level %v, model level %v", a, b)
@@ -367,7 +368,7 @@ func agreeLevels(a, b opResult) string {
 		return fmt.Sprintf("output count %d vs %d", len(a.outs), len(b.outs))
 	}
 	for i := range a.outs {
-		if d := sameValues(a.outs[i], b.outs[i]); d != "" {
+		if d := approxSame(a.outs[i], b.outs[i], 1e-5); d != "" {
 			return fmt.Sprintf("output %d: %s", i, d)
 		}
 	}
